@@ -28,7 +28,7 @@ import (
 
 func TestMain(m *testing.M) {
 	stats.Init("C12")
-	stats.Rule("scenario in {handshake-fails-dialer, tls-no-config, tls-no-cert, addr-in-use, listen-twice, dial-refused, bad-address, bad-scheme, handshake-garbage, handshake-truncated, hook-reject-listener, hook-reject-dialer, proto-reject, lost-after-attach, recv-timeout, send-timeout, no-peers, proto-state, closed-listener, closed-dialer} x applicable transports x 3-8 generated follow-up calls (GetOption/SetOption good+bad/Address/Listen/Dial/Send/Recv with deadlines/Close of siblings) x correct-and-retry. Also: address-in-use with the loser closed instead of retried; protocol refusal on the dialer side. Non-trivial: the error actually occurred and >=1 follow-up addressed the same object; distinct by (scenario, transport, follow-up sequence)")
+	stats.Rule("scenario in {handshake-fails-dialer, tls-no-config, tls-no-cert, addr-in-use, listen-twice, dial-refused, bad-address, bad-scheme, handshake-garbage, handshake-truncated, hook-reject-listener, hook-reject-dialer, proto-reject, lost-after-attach, recv-timeout, send-timeout, no-peers, proto-state, closed-listener, closed-dialer} x applicable transports x 3-8 generated follow-up calls (GetOption/SetOption good+bad/Address/Listen/Dial/Send/Recv with deadlines/Close of siblings) x correct-and-retry. Also: address-in-use with the loser closed instead of retried; protocol refusal on the dialer side. Non-trivial: the error actually occurred and >=1 follow-up addressed the same object; distinct by (scenario, transport, follow-up sequence). Round 5: bad addresses drawn from per-transport pools (ports, brackets, escapes; ipc: regular file, directory, over-long path)")
 	stats.Assume("every follow-up must return within 2 s (the documented blockers are only issued with deadlines); this reaches the error paths in the catalogue, not every lock-to-return path")
 	rc := m.Run()
 	stats.Flush()
